@@ -533,6 +533,12 @@ impl LogReader {
     back.
     */
     pub(crate) fn is_at_clean_end(&self) -> LogIOResult<bool> {
+        if self.has_skipped_corrupted_records {
+            // The rest of a block was dropped because of a damaged record. Records appended
+            // to that block later would be dropped with it by the next reader.
+            return Ok(false);
+        }
+
         Ok((self.current_cursor_position as u64) == self.len()?)
     }
 
@@ -604,9 +610,21 @@ impl LogReader {
                 err_msg,
             )));
         }
+        let record_start_position = self.current_cursor_position;
         self.current_block_offset += header_bytes_read;
 
         let data_length = u16::decode_fixed(&header_buffer[4..6]) as usize;
+        if data_length > BLOCK_SIZE_BYTES - self.current_block_offset {
+            // The writer never lets a fragment cross a block boundary so the length field itself
+            // is damaged.
+            self.skip_rest_of_block(record_start_position)?;
+            return Err(LogIOError::Seralization(LogSerializationErrorKind::Other(
+                format!(
+                    "The record at offset {record_start_position} claims a length of \
+                    {data_length} bytes which does not fit in its block."
+                ),
+            )));
+        }
 
         // Read the payload
         let mut data_buffer = vec![0; data_length];
@@ -634,9 +652,34 @@ impl LogReader {
 
         // Parse the payload
         let serialized_block = [header_buffer.to_vec(), data_buffer].concat();
-        let block_record: BlockRecord = BlockRecord::try_from(&serialized_block)?;
+        match BlockRecord::try_from(&serialized_block) {
+            Ok(block_record) => Ok(block_record),
+            Err(parse_error) => {
+                // The header is not covered by the checksum so the length that was just used to
+                // find the end of this record cannot be trusted either. Resuming right behind it
+                // could land in the middle of the record's payload and deliver payload bytes that
+                // happen to look like a record. Same as LevelDB, the rest of the block is dropped.
+                self.skip_rest_of_block(record_start_position)?;
+                Err(parse_error)
+            }
+        }
+    }
 
-        Ok(block_record)
+    /**
+    Move the reader to the start of the block after the one that the record starting at
+    `record_start_position` begins in (or to the end of the file if it ends before that).
+    */
+    fn skip_rest_of_block(&mut self, record_start_position: usize) -> LogIOResult<()> {
+        let next_block_start =
+            ((record_start_position / BLOCK_SIZE_BYTES) + 1) * BLOCK_SIZE_BYTES;
+        let target_position = next_block_start.min(self.len()? as usize);
+        LogReader::log_corruption((target_position.saturating_sub(record_start_position)) as u64);
+        self.log_file
+            .seek(SeekFrom::Start(target_position as u64))?;
+        self.current_cursor_position = target_position;
+        self.current_block_offset = target_position % BLOCK_SIZE_BYTES;
+
+        Ok(())
     }
 
     /// Get the length of the underlying log file.
